@@ -7,10 +7,10 @@ def all_contracts(src):
     if k in _cache:
         return _cache[k]
     from spec import fields as F
-    from . import validators, strings, composeid, sections
+    from . import validators, strings, composeid, sections, manifests
     T = F.Tables(src.mods or src.import_native())
     reg = {}
-    for c in validators.flat_contracts(src, T) + strings.contracts(src, T) + composeid.contracts(src, T) + sections.contracts(src, T):
+    for c in validators.flat_contracts(src, T) + strings.contracts(src, T) + composeid.contracts(src, T) + sections.contracts(src, T) + manifests.contracts(src, T):
         if c.key:
             reg[c.key] = c
     _cache[k] = reg
@@ -24,8 +24,10 @@ def get(key, src):
 def all_summaries(src):
     """summaries = proved contracts used modularly at call sites (each is justified by the obligations of its contract)"""
     from spec import fields as F
-    from . import composeid
+    from . import composeid, strings, manifests
     T = F.Tables(src.mods or src.import_native())
     out = {}
     out.update(composeid.summaries(src, T))
+    out.update(strings.summaries(src, T))
+    out.update(manifests.summaries(src, T))
     return out
